@@ -306,7 +306,7 @@ def main(argv=None):
     print(f"  violation key={v['key']} case={v['case']}: {v['what']}")
     print(f'VIOLATION property={prop} replay={path}')
   shown = set()
-  for p in harness_problems + inconcl:
+  for p in inconcl[:6] + harness_problems + inconcl[6:]:
     short = p if len(p) < 700 else p[:250] + ' ... ' + p[-400:]
     sig = short.split(':', 1)[-1][:200]
     if sig in shown or len(shown) > 12:
